@@ -145,6 +145,13 @@ pub fn prop_json(p: &str) -> String {
     format!("\"property\":\"{}\",\"also\":[{}]", first, rest.join(","))
 }
 
+/// VERIF_PROP=<id>: the random searches keep going past inputs on which the code contradicts only OTHER properties
+/// (the first such input is still reported, at the end), so that one defect does not hide a witness for the
+/// property the caller asks about
+pub fn wanted(prop: &str) -> bool {
+    match std::env::var("VERIF_PROP") { Ok(p) if !p.is_empty() => prop.split('+').any(|x| x == p), _ => true }
+}
+
 /// polls a future exactly once
 async fn futures_poll_once<F: std::future::Future>(mut f: std::pin::Pin<&mut F>) -> Option<F::Output> {
     std::future::poll_fn(|cx| std::task::Poll::Ready(match f.as_mut().poll(cx) { std::task::Poll::Ready(v) => Some(v), std::task::Poll::Pending => None })).await
@@ -367,11 +374,16 @@ fn rt() -> tokio::runtime::Runtime {
 
 fn cmd_history(seed: u64, iters: usize, steps: usize) -> i32 {
     let mut rng = Rng(seed.wrapping_mul(0x9E3779B97F4A7C15) | 1);
+    let mut other: Option<String> = None;
     for it in 0..iters {
         let ops = gen_ops(&mut rng, steps);
         let d = [10u64, 10, 12, 20][rng.below(4) as usize];
         let up = [0u64, 0, 1, 30, 400][rng.below(5) as usize];
         if let Err(e) = rt().block_on(run_history(&ops, d, up)) {
+            if !wanted(e.prop) {
+                if other.is_none() { other = Some(format!("WITNESS {{\"kind\":\"history\",{},\"ack_deadline_s\":{},\"uptime_days\":{},\"ops\":{},\"observed\":{:?},\"iteration\":{}}}", prop_json(e.prop), d, up, ops_to_json(&ops), e.what, it)); }
+                continue;
+            }
             // shrink: drop ops while it still fails for the same property
             let mut cur = ops.clone();
             let mut i = 0;
@@ -385,6 +397,7 @@ fn cmd_history(seed: u64, iters: usize, steps: usize) -> i32 {
             return 1;
         }
     }
+    if let Some(o) = other { println!("{}", o); return 1; }
     println!("NO-WITNESS histories={} steps={}", iters, steps);
     0
 }
@@ -791,9 +804,14 @@ fn gen_lops(rng: &mut Rng, steps: usize) -> Vec<LOp> {
 }
 fn cmd_lifecycle(seed: u64, iters: usize, steps: usize) -> i32 {
     let mut rng = Rng(seed.wrapping_mul(0x9E3779B97F4A7C15) | 1);
+    let mut other: Option<String> = None;
     for it in 0..iters {
         let ops = gen_lops(&mut rng, steps);
         if let Err(e) = rt().block_on(run_lifecycle(&ops)) {
+            if !wanted(e.prop) {
+                if other.is_none() { other = Some(format!("WITNESS {{\"kind\":\"lifecycle\",{},\"ops\":{},\"observed\":{:?},\"iteration\":{}}}", prop_json(e.prop), lops_json(&ops), e.what, it)); }
+                continue;
+            }
             let mut cur = ops.clone();
             let mut i = 0;
             while i < cur.len() {
@@ -806,6 +824,7 @@ fn cmd_lifecycle(seed: u64, iters: usize, steps: usize) -> i32 {
             return 1;
         }
     }
+    if let Some(o) = other { println!("{}", o); return 1; }
     println!("NO-WITNESS lifecycles={} steps={}", iters, steps);
     0
 }
